@@ -6,6 +6,7 @@
 import Vita.C08.Model
 import Vita.C05.Classify
 import Vita.C05.Lemmas
+import Vita.C05.ClsLemmas
 namespace Vita.C08
 open Vita.C05 Vita.C05.Num NumN
 
@@ -90,6 +91,16 @@ theorem fillVector_eq (classes : Nat) (train : List (Option F × Nat)) :
     congr 1
     rw [modify_map toCls (fun d => d.push fns (cutVal fns e.1))
       (fun d => @Cls.Dist.push F (numC fns) d (cutVal fns e.1)) (fun a => (push_eq fns a _).symm)]
+    rfl
+
+theorem pushAll_eq (xs : List F) : ∀ d : Dist F,
+    @Cls.pushAll F (numC fns) (toCls d) xs = toCls (xs.foldl (Dist.push fns) d) := by
+  induction xs with
+  | nil => intro d; rfl
+  | cons x rest ih =>
+    intro d
+    show @Cls.pushAll F (numC fns) (@Cls.Dist.push F (numC fns) (toCls d) x) rest = _
+    rw [push_eq, ih]
     rfl
 
 theorem gaussP_eq (x : F) (d : Dist F) : @Cls.gaussP F (numC fns) x (toCls d) = gaussP fns x d := rfl
